@@ -88,3 +88,221 @@ pub mod filters {
         }
     }
 }
+
+/// Wrappers for keys, blocks and tables (`src/key.rs`, `src/utils/bytes.rs`,
+/// `src/tables/{block_builder,block,table_builder,table}.rs`).
+pub mod tables {
+    use std::convert::TryFrom;
+    use std::rc::Rc;
+    use std::sync::Arc;
+
+    use crate::iterator::RainDbIterator;
+    use crate::key::{InternalKey, RainDbKeyType};
+    use crate::tables::block::BlockReader;
+    use crate::tables::table::TwoLevelIterator;
+    use crate::tables::verif_exports::BlockBuilder;
+    use crate::tables::{Table, TableBuilder};
+    use crate::utils::bytes::BinarySeparable;
+    use crate::{DbOptions, Operation, ReadOptions};
+
+    /// (user key, sequence number, operation tag, value)
+    pub type Entry = (Vec<u8>, u64, u8, Vec<u8>);
+
+    fn mk_key(user: &[u8], seq: u64, op: u8) -> InternalKey {
+        InternalKey::new(
+            user.to_vec(),
+            seq,
+            if op == 0 {
+                Operation::Delete
+            } else {
+                Operation::Put
+            },
+        )
+    }
+
+    fn unmk(key: &InternalKey, value: &[u8]) -> Entry {
+        (
+            key.get_user_key().to_vec(),
+            key.get_sequence_number(),
+            key.get_operation() as u8,
+            value.to_vec(),
+        )
+    }
+
+    pub fn ikey_bytes(user: &[u8], seq: u64, op: u8) -> Vec<u8> {
+        mk_key(user, seq, op).as_bytes()
+    }
+
+    pub fn ikey_parse(bytes: &[u8]) -> Option<(Vec<u8>, u64, u8)> {
+        InternalKey::try_from(bytes.to_vec()).ok().map(|k| {
+            (
+                k.get_user_key().to_vec(),
+                k.get_sequence_number(),
+                k.get_operation() as u8,
+            )
+        })
+    }
+
+    /// -1, 0, 1 for the `Ord` implementation; the second component is `PartialEq`.
+    pub fn ikey_cmp(a: (&[u8], u64, u8), b: (&[u8], u64, u8)) -> (i8, bool) {
+        let (ka, kb) = (mk_key(a.0, a.1, a.2), mk_key(b.0, b.1, b.2));
+        let ord = match ka.cmp(&kb) {
+            std::cmp::Ordering::Less => -1,
+            std::cmp::Ordering::Equal => 0,
+            std::cmp::Ordering::Greater => 1,
+        };
+        (ord, ka == kb)
+    }
+
+    pub fn ikey_separator(a: (&[u8], u64, u8), b: (&[u8], u64, u8)) -> Vec<u8> {
+        let (ka, kb) = (mk_key(a.0, a.1, a.2), mk_key(b.0, b.1, b.2));
+        BinarySeparable::find_shortest_separator(&ka, &kb)
+    }
+
+    pub fn ikey_successor(a: (&[u8], u64, u8)) -> Vec<u8> {
+        let ka = mk_key(a.0, a.1, a.2);
+        BinarySeparable::find_shortest_successor(&ka)
+    }
+
+    pub fn bytes_separator(a: &[u8], b: &[u8]) -> Vec<u8> {
+        BinarySeparable::find_shortest_separator(a, b)
+    }
+
+    pub fn bytes_successor(a: &[u8]) -> Vec<u8> {
+        BinarySeparable::find_shortest_successor(a)
+    }
+
+    /// `BlockBuilder<InternalKey>`: returns the finalized block and the size estimate.
+    pub fn block_build(restart_interval: usize, entries: &[Entry]) -> (Vec<u8>, usize) {
+        let mut builder: BlockBuilder<InternalKey> = BlockBuilder::new(restart_interval);
+        for (user, seq, op, value) in entries {
+            builder.add_entry(Rc::new(mk_key(user, *seq, *op)), value);
+        }
+        let size = builder.approximate_size();
+        (builder.finalize(), size)
+    }
+
+    /// A cursor operation for the iterator scripts.
+    #[derive(Clone, Debug)]
+    pub enum CursorOp {
+        Seek(Vec<u8>, u64, u8),
+        First,
+        Last,
+        Next,
+        Prev,
+    }
+
+    fn run_script<I>(iter: &mut I, ops: &[CursorOp]) -> Vec<Result<Option<Entry>, String>>
+    where
+        I: RainDbIterator<Key = InternalKey>,
+        I::Error: std::fmt::Debug,
+    {
+        let mut out = vec![];
+        for op in ops {
+            let res = match op {
+                CursorOp::Seek(u, s, o) => iter.seek(&mk_key(u, *s, *o)),
+                CursorOp::First => iter.seek_to_first(),
+                CursorOp::Last => iter.seek_to_last(),
+                CursorOp::Next => {
+                    iter.next();
+                    Ok(())
+                }
+                CursorOp::Prev => {
+                    iter.prev();
+                    Ok(())
+                }
+            };
+            match res {
+                Err(e) => out.push(Err(format!("{:?}", e))),
+                Ok(()) => out.push(Ok(if iter.is_valid() {
+                    iter.current().map(|(k, v)| unmk(k, v))
+                } else {
+                    None
+                })),
+            }
+        }
+        out
+    }
+
+    /// `BlockReader::new` + a cursor script on `BlockIter`.
+    pub fn block_read(
+        raw: Vec<u8>,
+        ops: &[CursorOp],
+    ) -> Result<(Vec<Entry>, Vec<Result<Option<Entry>, String>>), String> {
+        let reader: BlockReader<InternalKey> =
+            BlockReader::new(raw).map_err(|e| format!("{:?}", e))?;
+        let mut entries = vec![];
+        let mut iter = reader.iter();
+        while let Some((k, v)) = iter.current() {
+            entries.push(unmk(k, v));
+            iter.next();
+        }
+        let mut iter = reader.iter();
+        Ok((entries, run_script(&mut iter, ops)))
+    }
+
+    /// `TableBuilder`: build table file `file_number` under `options.db_path`.
+    pub fn build_table(options: DbOptions, file_number: u64, entries: &[Entry]) -> Result<u64, String> {
+        let mut builder = TableBuilder::new(options, file_number).map_err(|e| format!("{:?}", e))?;
+        for (user, seq, op, value) in entries {
+            builder
+                .add_entry(Rc::new(mk_key(user, *seq, *op)), value)
+                .map_err(|e| format!("{:?}", e))?;
+        }
+        builder.finalize().map_err(|e| format!("{:?}", e))?;
+        Ok(builder.file_size())
+    }
+
+    pub struct VTable(Arc<Table>);
+
+    impl VTable {
+        pub fn open(options: DbOptions, path: &std::path::Path) -> Result<Self, String> {
+            let file = options
+                .filesystem_provider()
+                .open_file(path)
+                .map_err(|e| format!("{:?}", e))?;
+            Table::open(options, file)
+                .map(|t| VTable(Arc::new(t)))
+                .map_err(|e| format!("{:?}", e))
+        }
+
+        /// `Table::get`: "F<value>", "D" (deleted), "N" (KeyNotFound) or "E:<error>".
+        pub fn get(&self, user: &[u8], seq: u64) -> (char, Vec<u8>, String) {
+            let key = InternalKey::new_for_seeking(user.to_vec(), seq);
+            match self.0.get(&ReadOptions::default(), &key) {
+                Ok(Some(v)) => ('F', v, String::new()),
+                Ok(None) => ('D', vec![], String::new()),
+                Err(crate::tables::errors::ReadError::KeyNotFound) => ('N', vec![], String::new()),
+                Err(e) => ('E', vec![], format!("{:?}", e)),
+            }
+        }
+
+        /// (index key bytes, block offset, entries of the block) for every index entry.
+        pub fn layout(&self) -> Result<Vec<(Vec<u8>, u64, Vec<Entry>)>, String> {
+            let mut out = vec![];
+            for (key, handle) in self.0.verif_index_entries() {
+                let (offset, entries) = self
+                    .0
+                    .verif_block_entries(&handle)
+                    .map_err(|e| format!("{:?}", e))?;
+                out.push((
+                    key.as_bytes(),
+                    offset,
+                    entries.iter().map(|(k, v)| unmk(k, v)).collect(),
+                ));
+            }
+            Ok(out)
+        }
+
+        pub fn filter_may_match(&self, block_offset: u64, user: &[u8]) -> Option<bool> {
+            self.0.verif_filter_may_match(block_offset, user)
+        }
+
+        /// A cursor script on a fresh `TwoLevelIterator`.
+        pub fn iter_script(&self, ops: &[CursorOp]) -> Vec<Result<Option<Entry>, String>> {
+            let mut iter: TwoLevelIterator =
+                Table::iter_with(Arc::clone(&self.0), ReadOptions::default());
+            run_script(&mut iter, ops)
+        }
+    }
+}
